@@ -240,10 +240,58 @@ def check_moments(ctx: Ctx, case):
         ctx.fail("C20/input-modified", "get_mom_ts_1d modified its input", sub, case)
 
 
-SUBCHECKS = {"hp_filter": check_hp, "derived_filters": check_filters, "moments": check_moments}
+# ---- the filters called from several threads at once ------------------------------------------------------------------
+def check_threads(ctx: Ctx):
+    """The coordinate filters are plain functions of their argument: called from four threads at once (series of a few
+    different lengths, the interpreter switching threads as often as it can) each call returns what it returns alone."""
+    import sys
+    import threading
+
+    import black_it.utils.time_series as ts
+
+    sub = "filters_in_threads"
+    rng = np.random.default_rng(ctx.sub_seed(sub))
+    lengths = [5, 8, 13, 40, 60, 7]
+    series = {n: np.abs(rng.standard_normal(n)).cumsum() + 1.0 for n in lengths}
+    fns = [ts.hp_cycle_lamb1600_filter, ts.log_and_hp_filter, ts.diff_log_demean_filter]
+    alone = {(f.__name__, n): f(series[n].copy()) for f in fns for n in lengths}
+    plans = [[(fns[int(a)], lengths[int(b)]) for a, b in zip(rng.integers(0, len(fns), 250), rng.integers(0, len(lengths), 250))]
+             for _ in range(4)]
+    bad = []
+
+    def worker(plan):
+        for f, n in plan:
+            try:
+                out = f(series[n].copy())
+                if not np.array_equal(out, alone[(f.__name__, n)]):
+                    bad.append(f"{f.__name__} on a series of length {n} returned another result than when called alone")
+            except Exception as e:  # noqa: BLE001
+                bad.append(f"{f.__name__} on a series of length {n} raised {type(e).__name__}: {str(e)[:80]}")
+
+    old = sys.getswitchinterval()
+    sys.setswitchinterval(1e-6)
+    try:
+        threads = [threading.Thread(target=worker, args=(p,), daemon=True) for p in plans]
+        for t in threads:
+            t.start()
+        for t in threads:
+            t.join(120)
+    finally:
+        sys.setswitchinterval(old)
+    ctx.evaluations += 1000
+    ctx.classes[sub] += 1000
+    if bad:
+        ctx.violations.append({"key": "C20/filter-definition", "what": f"called from 4 threads at once: {bad[0]} ({len(bad)} of 1000 "
+                               "calls)", "sub": sub, "case": {"threads": 4, "calls_per_thread": 250, "lengths": lengths}})
+
+
+SUBCHECKS = {"hp_filter": check_hp, "derived_filters": check_filters, "moments": check_moments,
+             "filters_in_threads": lambda ctx, case: check_threads(ctx)}
 
 
 def run(ctx: Ctx):
     drive(ctx, "hp_filter", hp_cases(), check_hp, ctx.n(1500, 50000))
     drive(ctx, "derived_filters", filter_cases(), check_filters, ctx.n(1200, 40000))
     drive(ctx, "moments", mom_cases(), check_moments, ctx.n(800, 30000))
+    if not ctx.violations:
+        check_threads(ctx)
